@@ -1155,7 +1155,7 @@ class CountFingerprint(Fingerprint):
         -------
         CountFingerprint : Fingerprint of folded vector
         """
-        counts_method = kwargs.get("counts_method", sum)
+        counts_method = kwargs.pop("counts_method", sum)
 
         fp = super(CountFingerprint, self).fold(*args, **kwargs)
         counts = dict(
